@@ -24,6 +24,7 @@ def check(ctx):
     batch_guard(ctx, P)
     validated_api(ctx, P)
     service_duration(ctx, P, iters)
+    resample_only(ctx, P, iters)
     ctx.assume("patience and class-change times are sampled raw (not covered by the property's wording); listed in evidence only")
 
 
@@ -236,6 +237,33 @@ def validated_api(ctx, P):
                 if isinstance(x, ast.Call) and isinstance(x.func, ast.Attribute) and x.func.attr == "sample":
                     raw.append("%s.%s: %s" % (cls.name, m, unparse(x)))
     ctx.notes.append("raw (unvalidated) sampling outside the property's wording: %s" % sorted(set(raw)))
+
+
+def resample_only(ctx, P, iters):
+    """after a pre-emption the requirement is re-sampled only for the 'resample' option: a sample drawn and thrown away under 'restart' / 'resume' shifts every
+    later sample of the stream"""
+    ob = ctx.ob("RESAMP", "give_service_time_after_preemption draws a service time exactly when the stored option is 'resample'")
+    for view in family_views(P, "Node"):
+        cls, fn = view.method("give_service_time_after_preemption")
+        tok = fn.args.args[1].arg
+        w = Walker(P, view, keep=lambda e: e.kind == "guard" or (e.kind == "call" and e.d["meth"] in ("get_service_time", "sample", "_sample")),
+                   track=lambda t, f: True, inline=rules.new_helper, loop_iters=iters)
+        bad = None
+        n = 0
+        for st in w.paths_of(cls, fn):
+            if st.status == "raise":
+                continue
+            n += 1
+            k = sum(1 for e in st.events if e.kind == "call")
+            pc = rules.path_condition(st.events, len(st.events))
+            res = [v for a, v in pc.items() if a[0] == "eq" and "'resample'" in a[1:]]
+            is_res = res[0] if res else None
+            if (k > 1) or (k == 1 and is_res is not True) or (k == 0 and is_res is True):
+                bad = bad or (st, k, is_res)
+        ob.ok("%s.give_service_time_after_preemption" % view.name, "%d path(s)" % n)
+        if bad is not None:
+            ctx.violation(ob, "R7.service-duration", "%s.give_service_time_after_preemption" % cls.name, "get_service_time(%s)" % tok, "sample-not-only-under-resample",
+                          "%d service-time sample(s) drawn on a path where the option %s 'resample'" % (bad[1], "is" if bad[2] else "is not known to be"), loc(fn), witness(bad[0]))
 
 
 def service_duration(ctx, P, iters):
